@@ -348,9 +348,13 @@ def summarise(prog, limit=60000):
         """The k-th `next()` on one named `buffer.chars().rev()[.skip(j)]` iterator is the (j+k)-th character
         from the end: written as the `nth` / `last` read the recognisers know.  The iterator borrows the buffer,
         so nothing can be pushed or popped between two of its reads."""
-        if not name.endswith("Iterator>::next") or len(args) != 1 or t["args"][0]["k"] == "const":
+        if len(args) != 1 or t["args"][0]["k"] == "const":
             return None
         it = strip_refs(args[0])
+        if name.endswith("DoubleEndedIterator>::next_back") and it.k == "call" and it.a[0].endswith("::chars"):
+            it = E("call", "std::iter::Iterator::rev", (it,), t=t)       # reading `chars()` from its back is reading `chars().rev()` from its front
+        elif not name.endswith("Iterator>::next"):
+            return None
         skipped = 0
         if it.k == "call" and it.a[0].endswith("Iterator::skip") and len(it.a[1]) == 2 and is_const(strip_refs(it.a[1][1]), "int"):
             skipped = const_val(strip_refs(it.a[1][1]))
